@@ -320,6 +320,31 @@ def der_bytes(idi: int, leni: int, content: bytes) -> bool:
     return True
 
 
+def der_depth(kind: int, di: int, inner: int) -> bool:
+    """der_decode on deeply nested constructed values (SEQUENCE, SET, explicit
+    context tag) of depth 1 / 50 / 400 / 3000 around a small inner value: a
+    value or ASN1DecodeError - in particular not RecursionError."""
+    ident = pick([0x30, 0x31, 0xa0], kind)
+    depth = pick([1, 50, 400, 3000], di)
+    data = pick([b'', b'\x05\x00', b'\x02\x01\x07', b'\x04\x01'], inner)
+    with notrace():
+        for _ in range(depth):
+            n = len(data)
+            if n < 128:
+                ln = bytes([n])
+            else:
+                nb = (n.bit_length() + 7) // 8
+                ln = bytes([0x80 | nb]) + n.to_bytes(nb, 'big')
+            data = bytes([ident]) + ln + data
+        try:
+            A.der_decode(data)
+        except A.ASN1DecodeError:
+            pass
+        except RecursionError:
+            return False
+    return True
+
+
 def recv_lengths(pktlen: int, buflen: int, macsize: int, blocksize: int) -> bool:
     """Receive loop on a buffer whose length field is arbitrary (0..2^32-1):
     handling the chunk terminates in a bounded number of handler steps and
@@ -670,6 +695,9 @@ OBLIGATIONS = [
        timeout=120, thorough_timeout=600,
        functions=[A.der_decode, A.der_decode_partial, A.BitString.decode, A.ObjectIdentifier.decode],
        bounds='identifier octet from 25 representatives (all universal classes incl. constructed/high-tag forms), length octet from 6 forms, content = arbitrary bytes of length 0..1 (thorough 0..2, identifier sharded)'),
+    Ob('der_depth', der_depth, sym=dict(kind=R(0, 2), di=R(0, 3), inner=R(0, 3)), timeout=120,
+       functions=[A.der_decode, A.der_decode_partial],
+       bounds='SEQUENCE / SET / [0] nested 1, 50, 400 or 3000 deep around {nothing, NULL, INTEGER 7, truncated OCTET STRING}'),
     Ob('recv_lengths', recv_lengths,
        sym=dict(pktlen=R(0, 0xffffffff), buflen=R(0, 40), macsize=R(0, 2), blocksize=R(0, 1)),
        shards=dict(blocksize=[0, 1], macsize=[0, 1, 2]),
@@ -720,6 +748,6 @@ MANIFEST = dict(
          'byte string (symbolic, lengths 0..5, thorough ..13) as payload through the real _recv_data/_recv_packet/handler code in the post-auth state, '
          'both roles: handling terminates, at most one close, nothing escapes to the loop, bounded output; peer-chosen window / packet size at '
          'channel open and open-confirmation in {0,1,2,2^31-1,2^32-1} never leave a sender that spins; arbitrary uint32 length fields; SSHPacket '
-         'getters, der_decode, and well-framed ssh-rsa blobs with impossible parameters raise only their documented errors; failed tasks are reaped.',
+         'getters, der_decode, and well-framed ssh-rsa blobs with impossible parameters raise only their documented errors; failed tasks are reaped; every named global request with an arbitrary body finishes within a fuel bound; the SFTP server copy-data loop never feeds on its own output; der_decode of deeply nested values raises its documented error.',
     note='Pre-auth phases are C06; SFTP/agent/SOCKS/sshsig parsers are covered under C14/C20/C16; wall-clock time and memory are not measured '
          '(ghost fuel only); byte strings longer than the stated lengths are outside the claim. Trusted: CrossHair, z3, harness oracles and stubs.')
